@@ -143,6 +143,8 @@ func Equal(a, b *V) bool {
 			}
 		}
 		return true
+	case TTagged:
+		return equalTagged(a, b)
 	}
 	return false
 }
@@ -189,6 +191,8 @@ func typeName(v *V) string {
 	switch v.T {
 	case TVec:
 		return "array"
+	case TTagged:
+		return v.S // the user-defined type name (ext.go)
 	default:
 		return v.T.String()
 	}
@@ -588,10 +592,12 @@ func installBuiltins(in *Interp, p *Package) {
 	})
 	B("type", 1, 1, func(in *Interp, env *Env, a []*V) (*V, *Err) { return QSym(typeName(a[0])), nil })
 	B("type?", 2, 2, func(in *Interp, env *Env, a []*V) (*V, *Err) {
-		if a[0].T != TSym {
-			return nil, in.errf("first argument is not a valid type specifier")
+		// a symbol, or a typedef made by deftype (ext.go)
+		name, e := typeSpecName(in, a[0])
+		if e != nil {
+			return nil, e
 		}
-		return Bool(typeName(a[1]) == a[0].S), nil
+		return Bool(typeName(a[1]) == name), nil
 	})
 
 	// ---- numbers ----
